@@ -333,3 +333,23 @@ B('c16-nameop-keyerror', 'C16', AST,
 B('c16-getitem-two-classes', 'C16', FUN,
   "    try:\n        return container[key]\n    except LookupError:", "    try:\n        return container[key]\n    except (KeyError, IndexError):")
 B('c16-pop-catches-lookuperror', 'C16', FUN, "    except IndexError as e:\n        raise ParserError(str(e))\n\n\ndef _sorted", "    except LookupError as e:\n        raise ParserError(str(e))\n\n\ndef _sorted")
+
+# =============================================================================== C18
+LN_FILTER = "            if t.type == 'NAME':\n                yield t.value"
+M('c18-filter-extra-type', 'C18', 'C18.R1', SQP, LN_FILTER, "            if t.type in ('NAME', 'STRING'):\n                yield t.value")
+M('c18-yield-stripped', 'C18', 'C18.R1', SQP, LN_FILTER, "            if t.type == 'NAME':\n                yield t.value.strip('%')")
+M('c18-extra-filter', 'C18', 'C18.R1', SQP, LN_FILTER, "            if t.type == 'NAME' and not t.value.startswith('%'):\n                yield t.value")
+M('c18-early-exit-on-newline', 'C18', 'C18.R1', SQP, LN_FILTER, "            if t.type == 'NEWLINE':\n                return\n            if t.type == 'NAME':\n                yield t.value")
+M('c18-filter-wrong-type', 'C18', 'C18.R1', SQP, LN_FILTER, "            if t.type != 'STRING':\n                yield t.value")
+M('c18-synthesised-name', 'C18', 'C18.R3', RUL, "        p[0] = CallOp(p[3], args=[p[1]])", "        p[0] = CallOp('call', args=[p[1], ValueOp(p[3])])")
+M('c18-string-as-name', 'C18', 'C18.R3', RUL, '    """ expression : STRING """\n    p[0] = ValueOp(p[1])', '    """ expression : STRING """\n    p[0] = NameOp(p[1])')
+M('c18-lookup-lowercased', 'C18', 'C18.R4', AST, "            value = state.names[self.name]", "            value = state.names[self.name.lower()]")
+M('c18-lookup-constant', 'C18', 'C18.R4', AST, "            f = state.names[self.name]", "            f = state.names[self.name] if self.args else state.names['call0']")
+M('c18-name-rule-before-string', 'C18', 'C18.R2', edits=[
+  (LEX, "# vars with %% can contain dots in name\n# others - cant\ndef t_NAME(t):\n    r\"\"\" (%.*?%) | ([^\\W\\d][\\w0-9_]*([\\w_][\\w0-9_]*)*) \"\"\"\n    t.type = reserved.get(t.value, 'NAME')\n    return t\n\n\n", ""),
+  (LEX, "def t_STRING(t):", "def t_NAME(t):\n    r\"\"\" (%.*?%) | ([^\\W\\d][\\w0-9_]*([\\w_][\\w0-9_]*)*) \"\"\"\n    t.type = reserved.get(t.value, 'NAME')\n    return t\n\n\ndef t_STRING(t):")])
+M('c18-comment-returns-token', 'C18', 'C18.R2', LEX, '    r""" \\043.* """\n    return None', '    r""" \\043.* """\n    return t')
+
+B('c18-break-on-none', 'C18', SQP, "            if t is None:\n                return\n            if t.type == 'NAME':", "            if t is None:\n                break\n            if t.type == 'NAME':")
+B('c18-local-name', 'C18', SQP, LN_FILTER, "            if t.type == 'NAME':\n                name = t.value\n                yield name")
+B('c18-inverted-test', 'C18', SQP, LN_FILTER, "            if t.type != 'NAME':\n                continue\n            yield t.value")
